@@ -827,3 +827,8 @@ def check(run):
     run.rule('R2', _safe(r2_error_mapping), 'JSON/URL-encoded handlers map failures to the two 400-class media errors', floor=9)
     run.rule('R3', _safe(r3_codec_agreement), 'serializer/deserializer codec agreement', floor=7)
     run.rule('R4', _safe(r4_render_cache), 'response render cache reset by writers, honoured by the three render sites', floor=20)
+    # which handler parses/renders a document is decided by the resolver: the requested type and the registered keys
+    # must be compared in one case form (shared with C11 R9)
+    from . import c11 as _c11
+
+    run.rule('R5', _c11._safe(_c11.r9_same_case_form), 'handler resolution compares requested type and registered keys in one case form (shared with C11 R9)', floor=2)
